@@ -10,7 +10,7 @@ if [ -f "$T" ]; then
 else
   W=$T; trap 'rm -rf /tmp/seedout-'$$'' EXIT
 fi
-cd /verif
+cd "$(cd "$(dirname "$0")" && pwd)"
 for ID in "$@"; do
   out=$(VERIF_REPO=$W VERIF_OUT=/tmp/seedout-$$ ./check $ID --tier ${TIER:-quick} 2>&1); rc=$?
   echo "$ID exit=$rc :: $(echo "$out" | grep -E '^  oracle=|^HARNESS' | sed 's/^  //' | cut -c1-150 | head -4 | tr '\n' '|')"
